@@ -17,7 +17,8 @@ import "gonum.org/v1/gonum/blas/blas64"
 //
 //	X[0:m, j] is moved to X[0:m, k[j]] for j = 0, 1, ..., n-1.
 //
-// k must have length n, otherwise Dlapmt will panic. k is zero-indexed.
+// k must have length n and be a permutation of 0, 1, ..., n-1, otherwise Dlapmt
+// will panic. k is zero-indexed.
 func (impl Implementation) Dlapmt(forward bool, m, n int, x []float64, ldx int, k []int) {
 	switch {
 	case m < 0:
@@ -38,6 +39,8 @@ func (impl Implementation) Dlapmt(forward bool, m, n int, x []float64, ldx int, 
 		panic(shortX)
 	case len(k) != n:
 		panic(badLenK)
+	case !isPermutation(k):
+		panic(badK)
 	}
 
 	// Quick return if possible.
@@ -86,4 +89,36 @@ func (impl Implementation) Dlapmt(forward bool, m, n int, x []float64, ldx int, 
 	for i := range k {
 		k[i]--
 	}
+}
+
+// isPermutation returns whether k contains each of the indices 0, 1, ...,
+// len(k)-1 exactly once. The elements of k are used for bookkeeping and are
+// restored before returning.
+func isPermutation(k []int) bool {
+	n := len(k)
+	for _, v := range k {
+		if v < 0 || n <= v {
+			return false
+		}
+	}
+	// An index v that has been seen is recorded by replacing k[v] with
+	// -k[v]-1, which is negative.
+	ok := true
+	for i := 0; i < n; i++ {
+		v := k[i]
+		if v < 0 {
+			v = -v - 1
+		}
+		if k[v] < 0 {
+			ok = false
+			break
+		}
+		k[v] = -k[v] - 1
+	}
+	for i, v := range k {
+		if v < 0 {
+			k[i] = -v - 1
+		}
+	}
+	return ok
 }
